@@ -11,6 +11,7 @@ import itertools
 from ..bp_world import BpWorld
 from ..world import Violation
 from ..oracle import bpv7 as B
+from ..oracle import cbor_min as C
 from ..evidence import enum_evidence
 
 PROP = 'C11'
@@ -117,6 +118,11 @@ def primary_cases():
         (lab, b) = mk(dict(primary='status report in transit, times %r fragment %r' % (times, frag)), flags=B.FLAG_ADMIN, report_to='dtn:none',
                       src='dtn://other/')
         b['blocks'][-1]['data'] = B.enc_status_report(status, 0, 'dtn://elsewhere/app', (0, 9) if times[0] == 0 else (700000000001, 3), frag=frag)
+        yield (lab, b)
+    # administrative records of types this node has no class for, in transit, with "empty" and ordinary contents
+    for content in ([], 0, '', False, {}, None, b'', [1, [2]], {4: 1, 1: 2}, 'text'):
+        (lab, b) = mk(dict(primary='administrative record [7, %r] in transit' % (content,)), flags=B.FLAG_ADMIN, report_to='dtn:none', src='dtn://other/')
+        b['blocks'][-1]['data'] = C.dumps([7, content])
         yield (lab, b)
     for bflags in (0x80, 0x81, 0x28, 0x1000001):
         (lab, b) = mk(dict(primary='unknown block with block flags %#x' % bflags, unk=True))
